@@ -33,6 +33,8 @@ def scope(run, pid, extra=()):
 
 def c_dev10n(run):
     r10_args.check_none_default_tests(run, run.prog.analysed_functions())
+    r20_shapes.check_inverted_guards(run, run.prog.analysed_functions())
+    r20_shapes.check_slot_completeness(run, run.prog.analysed_functions())
     for f in run.prog.analysed_functions():
         if f.module.short not in ('base/animate', 'timing', 'stdlib/collections', 'base/graphics'):
             r10_args.check_option_used(run, f)
@@ -478,6 +480,8 @@ def _scope_rules(run, pid, r1=True, r2=True, r9=True, generic=True):
                 if f.module.short not in ('base/animate', 'timing', 'stdlib/collections', 'base/graphics'):
                     r10_args.check_option_used(run, f)       # an option (check, unit, tol, twist ...) that is accepted but never read
         r20_shapes.check_shapes(run, [f for f in fs if f.key not in seen])
+        r20_shapes.check_inverted_guards(run, [f for f in fs if f.key not in seen])
+        r20_shapes.check_slot_completeness(run, [f for f in fs if f.key not in seen])
         r15_closed.check_unchecked_sites(run, keys={f.key for f in fs if f.key not in seen})
         run.extra['_generic_done'] = sorted(seen | {f.key for f in fs})
     if r9:
